@@ -31,6 +31,7 @@ const (
 	GateNet                // simnet deliveries
 	GateUser               // explicit harness yields inside callbacks
 	GateGo                 // start of goroutines launched by `go` statements in files opted in with "go_gates"
+	GateStmt               // between the statements of functions in files opted in with "stmt_gates" (on in a quarter of the runs)
 	GateAll    = GateTask | GateMutex | GateAtomic | GateMap | GateNet | GateUser | GateGo
 )
 
@@ -629,6 +630,10 @@ func (r *Run) configure() {
 		if g >= 12 {
 			r.gates |= GateGo
 		}
+	}
+	// statement gates multiply the number of steps: only every fourth run
+	if g%4 == 3 {
+		r.gates |= GateStmt
 	}
 	r.strategy = knob(3)
 	r.stickyP = []int{50, 75, 90, 97}[knob(4)]
